@@ -13,6 +13,8 @@ import Teleport.Lemmas.RedialLock
 import Teleport.Lemmas.RedialTie
 import Teleport.Gen.Transitions
 import Teleport.Gen.Redial
+import Teleport.Lemmas.RedialProgress
+import Teleport.Lemmas.RedialStorm
 namespace Teleport
 namespace C13
 open Teleport.Redial
@@ -567,6 +569,183 @@ example : retryTrace .call "stage:postWriteCall" ⟨"closed-twice", State.init 3
     retryTrace .push "stage:postWritePush" ⟨"write-failed", State.init 3 false, [[.lose 0]]⟩ = ["write", "return"] := by decide
 
 end TieA
+
+-- BEGIN liveness
+/-! ## liveness inside the model ("no hang")
+
+Internal events are the steps of the session's own goroutines (`Ev.th i`); the environment chooses
+everything else: an operation is issued (`call`, `push`), a connection is cut (`lose`), the server's
+reply is delivered (`reply`), the outcomes of the coming dial attempts (`setEnv`: the availability
+stream a redial round consumes), `setUser`. Invariant chain: Lemmas/RedialStep, RedialInv,
+RedialLive, RedialMeasure, RedialProgress.
+
+Three kinds of steps of a STALE reader — the reader goroutine of a connection older than the one
+the socket holds now, the actor of the recorded findings `c13:stale-disconnect-cancels-new-calls`
+and `c13:writer-first-leaves-passive-closing` — are what the full statements fail on:
+`staleCas` (it wins the status CAS of `readDisconnected` on the redialed session), `staleClose`
+(its `s.socket.Close()` closes the live new connection), `staleFinal` (told `false` by
+`redialForClient`, it stores PassiveClosed over the redialed session). The `_partial` theorems
+exclude exactly these steps, the `_witness` theorems show each exclusion is needed.
+`c13:exhausted-writer-path-no-notify` does not touch liveness (its schedule is covered). -/
+
+/-- (1) classification: an event is internal iff it is a step of one of the session's threads. -/
+theorem C13_internal_iff (e : Ev) : e.internal = true ↔ ∃ i, e = .th i := by
+  cases e <;> simp [Ev.internal]
+
+/-- (2) full statement (fails, see `C13_measure_witness`): every internal step strictly decreases
+    `measure`. Proved: in every reachable state, every internal step that is neither a stale CAS
+    nor a stale close strictly decreases the natural number `Redial.measure` — the potential
+    (status ≠ Ok, current connection dead, connections lost before they are established, per
+    reader/writer the rounds and status changes it can still cause; the remaining retry budget of
+    a round does not enter because a round is one step whose length `C13_bounded` bounds) and per
+    thread its program counter's distance to blocking, scaled by the potential. -/
+theorem C13_measure_partial (b : Int) (eof : Bool) (s t : State) (i : Nat) (r : Reachable b eof s)
+    (h : step s (.th i) = some t) (hc : staleCas s i = false) (hk : staleClose s i = false) :
+    Redial.measure t < Redial.measure s :=
+  measure_step (ainv_reach r) h hc hk
+
+/-- non-vacuity: the step in which the reader of the lost connection 0 wins the status CAS
+    (connection 0 is still the current one) is covered; the measure falls from 397 to 313. -/
+example : ∃ s, run (State.init 3 false) [.lose 0, .th 0, .th 0] = some s ∧
+    staleCas s 0 = false ∧ staleClose s 0 = false ∧
+    ∃ t, step s (.th 0) = some t ∧ t.status = .passiveClosing ∧ Redial.measure t < Redial.measure s := by decide
+
+/-- the two exclusions of `C13_measure_partial` are needed: after a Push has redialed to
+    connection 1 (`evs`), the step of the old reader — its `socket.Close()` (first schedule: the
+    reader had won the CAS before the redial) resp. its status CAS (second schedule) — is enabled,
+    stale, and RAISES the measure: it creates the trouble that lets the writer redial once more,
+    and that round starts a reader which the next stale step turns against connection 2, and so on
+    (the redial storm of `C13_measure_storm_witness`). -/
+theorem C13_measure_witness :
+    (∃ s, run (State.init 3 true) [.lose 0, .th 0, .th 0, .th 0, .th 0, .th 0, .push, .th 1, .th 1, .th 1, .th 1] = some s ∧
+      staleClose s 0 = true ∧ s.conn = 1 ∧ 1 ∉ s.dead ∧
+      ∃ t, step s (.th 0) = some t ∧ 1 ∈ t.dead ∧ Redial.measure s < Redial.measure t) ∧
+    (∃ s, run (State.init 3 true) [.lose 0, .th 0, .th 0, .push, .th 1, .th 1, .th 1, .th 1] = some s ∧
+      staleCas s 0 = true ∧ s.status = .ok ∧
+      ∃ t, step s (.th 0) = some t ∧ t.status = .passiveClosing ∧ Redial.measure s < Redial.measure t) := by
+  constructor <;> decide
+
+/-- the redial storm: a Push is issued and connection 0 is lost (budget 3, write reports EOF,
+    server up). From there internal steps alone go on for ever — 13 per turn: the Push checks,
+    fails, locks and redials (4); the reader that is one connection behind notices its loss, wins
+    the status CAS on the redialed session, deletes the index entry, runs the cancel loop, closes the
+    NEW connection, calls `redialForClient`, locks and returns (9) — so NO natural-number function
+    of the state decreases with every internal step. Every turn contains a `staleCas` and a
+    `staleClose` step, the two exclusions of `C13_measure_partial`. -/
+theorem C13_measure_storm_witness :
+    (∀ n, ∃ (s : State) (is : List Nat), run (State.init 3 true) [.push, .lose 0] = some s ∧ is.length = 13 * n ∧
+      ∃ t, run s (is.map Ev.th) = some t) ∧
+    ¬ ∃ μ : State → Nat, ∀ s t i, Reachable 3 true s → step s (.th i) = some t → μ t < μ s := by
+  refine ⟨fun n => ?_, no_measure⟩
+  obtain ⟨s0, hr, hs⟩ := storm_init
+  obtain ⟨is, hl, t, ht⟩ := storm_unbounded n s0 0 hs
+  exact ⟨s0, is, hr, hl, t, ht⟩
+
+/-- (3a) NO DEADLOCK, full strength: for every interleaving of any number of Call / Push
+    goroutines, the readers, every loss pattern and availability stream: in every reachable state in
+    which no internal step is enabled and no thread sits in a retry loop that never ends (automatic
+    for a budget ≥ 0, see `C13_bounded_never_parks`), `s.lock` is free and no thread is parked inside
+    `readDisconnected` / `redialForClient` or waiting for the lock: every reader is blocked in
+    `ReadMessage` on a connection that has not been lost or has returned, every Call / Push has
+    left the write path. -/
+theorem C13_no_deadlock (b : Int) (eof : Bool) (s : State) (r : Reachable b eof s)
+    (hq : ∀ i, step s (.th i) = none) (hns : ∀ th ∈ s.threads, th.pc ≠ .stuck) :
+    s.lock = false ∧ ∀ th ∈ s.threads, atRest s th :=
+  quiescent_rest (ainv_reach r) (reachable_linv b eof s r) hq hns
+
+/-- a bounded budget never parks a thread inside the retry loop: the hypothesis `hns` of the
+    liveness theorems holds in every reachable state when the budget is ≥ 0. (With an unlimited
+    budget and a server that never comes back the loop does not end, `C13_unlimited_never_exhausts`.) -/
+theorem C13_bounded_never_parks (b : Int) (hb : 0 ≤ b) (eof : Bool) (s : State) (r : Reachable b eof s) :
+    ∀ th ∈ s.threads, th.pc ≠ .stuck :=
+  ns_reach hb r
+
+/-- (3b) full statement (fails, see `C13_no_stuck_witness`): … and every issued operation has
+    returned — a Push with OK or a connection status (102 / 104), a Call with its reply (0) or a
+    connection status — or still waits for its reply on a connection that has not been lost.
+    Proved for every state reached by a schedule without a stale final store (`ReachableNF`). -/
+theorem C13_no_stuck_partial (b : Int) (eof : Bool) (s : State) (r : ReachableNF b eof s)
+    (hq : ∀ i, step s (.th i) = none) (hns : ∀ th ∈ s.threads, th.pc ≠ .stuck) :
+    s.lock = false ∧ (∀ th ∈ s.threads, atRest s th) ∧ ∀ th ∈ s.threads, opReturned s th := by
+  obtain ⟨a, bi⟩ := binv_reachNF r
+  have l := reachable_linv b eof s (reachableNF_reachable r)
+  obtain ⟨h1, h2⟩ := quiescent_rest a l hq hns
+  exact ⟨h1, h2, quiescent_returned a bi l hq hns⟩
+
+/-- the excluded schedule (budget 1; not among the recorded findings — no gate of the real code sits
+    between `redialForClient` returning false and `changeStatus(statusPassiveClosed)`, so the harness
+    cannot force it): the reader of connection 0 exhausts the budget and is about to store
+    PassiveClosed; a Call sees RedialFailed, redials successfully (connection 1) and is written; the
+    old reader's store overwrites Ok; connection 1 is lost; its reader sees PassiveClosed and
+    returns without the cancel loop: nothing is enabled any more and the call hangs (no result, its
+    connection lost). -/
+theorem C13_no_stuck_witness :
+    ∃ t, run (State.init 1 false)
+        [.setEnv ⟨[.down, .down], .up⟩, .lose 0, .th 0, .th 0, .th 0, .th 0, .th 0, .th 0, .th 0, .th 0, .th 0,
+         .call, .th 1, .th 1, .th 1, .th 1, .th 1, .th 1, .th 0, .lose 1, .th 2, .th 2, .th 2] = some t ∧
+      firstEnabled t [] 0 t.threads.length = none ∧ t.lock = false ∧
+      t.threads[1]? = some ⟨.caller 0, .wAwait⟩ ∧ t.calls[0]? = some ⟨1, false, none⟩ ∧ 1 ∈ t.dead ∧
+      t.status = .passiveClosed := by decide
+
+/-- (4) full statement (fails by the two witnesses above): every run of internal steps from a
+    reachable state is at most `measure s` long and ends in a state as in (3b).
+    Proved: from a state reached without a stale final store, every run `is` of internal steps (thread
+    indices) none of which is a stale CAS / stale close / stale final store (`runIC`) has at most
+    `measure s` steps, each redial round in it makes at most budget+1 dial attempts (budget ≥ 0);
+    and when it reaches a state `t` in which NO internal step at all is enabled
+    (and no thread is inside an endless retry loop), the lock is free, nobody is parked and every
+    operation has returned. -/
+theorem C13_completion_follows_partial (b : Int) (eof : Bool) (s t : State) (is : List Nat)
+    (r : ReachableNF b eof s) (hrun : runIC s is = some t) :
+    is.length ≤ Redial.measure s ∧ run s (is.map Ev.th) = some t ∧
+    (0 ≤ b → ∀ n ∈ t.rounds, n ≤ b.toNat + 1) ∧
+    ((∀ i, step t (.th i) = none) → (∀ th ∈ t.threads, th.pc ≠ .stuck) →
+      t.lock = false ∧ (∀ th ∈ t.threads, atRest t th) ∧ ∀ th ∈ t.threads, opReturned t th) := by
+  have hb := runIC_bound is s t (binv_reachNF r).1 hrun
+  have rt := runIC_reachNF r hrun
+  exact ⟨by omega, runIC_run is s t hrun,
+    fun h0 => (reachable_cinv b eof t (reachableNF_reachable rt)).2.1 h0,
+    fun hq hns => C13_no_stuck_partial b eof t rt hq hns⟩
+
+/-- non-vacuity of (3b), a loss, a redial and returned calls: a call is in flight on connection 0
+    when it is lost; the reader cancels it (102) and redials (connection 1); a second call is issued,
+    written and answered. The end state is reachable without a stale final store, nothing is
+    enabled, no thread is stuck: both calls have returned. -/
+example : ∃ s, ReachableNF 3 false s ∧ (∀ i, step s (.th i) = none) ∧ (∀ th ∈ s.threads, th.pc ≠ .stuck) ∧
+    s.redials = [0] ∧ s.status = .ok ∧ s.calls = [⟨0, false, some 102⟩, ⟨1, true, some 0⟩] := by
+  have h : runNF (State.init 3 false)
+      [.call, .th 1, .th 1, .lose 0, .th 0, .th 0, .th 0, .th 0, .th 0, .th 0, .th 0, .th 0, .th 0,
+       .call, .th 3, .th 3, .reply 1] = some ((runNF (State.init 3 false)
+      [.call, .th 1, .th 1, .lose 0, .th 0, .th 0, .th 0, .th 0, .th 0, .th 0, .th 0, .th 0, .th 0,
+       .call, .th 3, .th 3, .reply 1]).getD (State.init 3 false)) := by decide
+  refine ⟨_, ⟨_, h⟩, quiescent_of_firstEnabled (by decide), by decide, by decide, by decide, by decide⟩
+
+/-- non-vacuity of (3b), an exhausted budget (budget 1, server down for good): the call in flight is
+    cancelled with 102, the reader's round makes 2 attempts and fails, the session ends (PassiveClosed,
+    notified); a later Push runs one more bounded round (2 attempts) and fails with 102. -/
+example : ∃ s, ReachableNF 1 false s ∧ (∀ i, step s (.th i) = none) ∧ (∀ th ∈ s.threads, th.pc ≠ .stuck) ∧
+    s.rounds = [2, 2] ∧ s.notified = true ∧ s.calls = [⟨0, false, some 102⟩] ∧
+    s.threads[2]? = some ⟨.pusher, .wDone 102⟩ := by
+  have h : runNF (State.init 1 false)
+      [.setEnv ⟨[], .down⟩, .call, .th 1, .th 1, .lose 0, .th 0, .th 0, .th 0, .th 0, .th 0, .th 0, .th 0, .th 0,
+       .th 0, .th 0, .push, .th 2, .th 2, .th 2, .th 2] = some ((runNF (State.init 1 false)
+      [.setEnv ⟨[], .down⟩, .call, .th 1, .th 1, .lose 0, .th 0, .th 0, .th 0, .th 0, .th 0, .th 0, .th 0, .th 0,
+       .th 0, .th 0, .push, .th 2, .th 2, .th 2, .th 2]).getD (State.init 1 false)) := by decide
+  refine ⟨_, ⟨_, h⟩, quiescent_of_firstEnabled (by decide), by decide, by decide, by decide, by decide, by decide⟩
+
+/-- non-vacuity of (4): from the state right after the loss (a call in flight) the nine steps of
+    the reader — error, load, CAS, index delete, cancel loop, close, `redialForClient`, lock, round —
+    are a run of non-stale internal steps that ends with nothing enabled. -/
+example : ∃ s t, ReachableNF 3 false s ∧ runIC s [0, 0, 0, 0, 0, 0, 0, 0, 0] = some t ∧
+    (∀ i, step t (.th i) = none) ∧ t.calls = [⟨0, false, some 102⟩] ∧ t.conn = 1 := by
+  have h : runNF (State.init 3 false) [.call, .th 1, .th 1, .lose 0] = some ((runNF (State.init 3 false)
+      [.call, .th 1, .th 1, .lose 0]).getD (State.init 3 false)) := by decide
+  have h2 : runIC ((runNF (State.init 3 false) [.call, .th 1, .th 1, .lose 0]).getD (State.init 3 false))
+      [0, 0, 0, 0, 0, 0, 0, 0, 0] = some ((runIC ((runNF (State.init 3 false)
+      [.call, .th 1, .th 1, .lose 0]).getD (State.init 3 false)) [0, 0, 0, 0, 0, 0, 0, 0, 0]).getD (State.init 3 false)) := by
+    decide
+  exact ⟨_, _, ⟨_, h⟩, h2, quiescent_of_firstEnabled (by decide), by decide, by decide⟩
+-- END liveness
 
 end C13
 end Teleport
